@@ -607,7 +607,12 @@ def accept(R, RID='C01.accept'):
                 if not any(c_ == 125 or c_ >= (1 << 16) for c_ in consts):
                     continue
                 nt += 1
-                ok = rd.defs_at(n0, lv) == final
+                here = rd.defs_at(n0, lv)
+                raw = {d for d in final if d.ast is not None and isinstance(d.ast, ast.Assign)
+                       and not any(isinstance(x_, (ast.Yield, ast.Call)) for x_ in ast.walk(d.ast.value))}
+                # (a rule placed inside the branch of one extended form reads that form's definition only - fine; reading
+                #  nothing but the raw 7-bit field is not)
+                ok = bool(here) and here <= final and not (here <= raw and final - raw)
                 R.ob(RID, 'size rule `%s` reads the decoded length' % U(t.ast)[:50], ok,
                      'the test `%s` that leads to `%s` reads the length as defined by %s, the payload is read with the length '
                      'defined by %s: a frame whose length is carried in another (legal) encoding is judged on the wrong '
